@@ -246,6 +246,19 @@ func discharge(obls []*Oblig, workdir string, timeoutS, retryS int, useAll bool,
 				return
 			}
 			if !useAll {
+				// stage 0: sliced script (fewer assumptions: only "unsat" is conclusive)
+				if ss := o.gen.slicedScript(o); ss != "" {
+					sf := filepath.Join(workdir, sanitize(o.Name)+".sliced.smt2")
+					os.WriteFile(sf, []byte(ss), 0o644)
+					rs := runOne(solvers[0], sf, 2)
+					if rs.verdict != "unsat" {
+						rs = raceSolvers(sf, 3, false)
+					}
+					if rs.verdict == "unsat" {
+						o.Solver, o.Ms, o.Output, o.Status = rs.solver+"(sliced)", rs.ms, rs.output, "discharged"
+						return
+					}
+				}
 				// stage 1: the fastest back end alone with a short budget
 				r = runOne(solvers[0], f, 3)
 			}
